@@ -5,7 +5,7 @@ from .c02 import gen_prefix_case
 
 PROPS_FILES = ['theories/Props/C03.v']
 FINDINGS_FILES = ['theories/Findings/C03.v']
-LEVEL = 'other'
+LEVEL = 'proof'
 TRUSTED = ['Model/Partition.v (hand-written model of mapping_partitioner.py) and its `separable` criterion',
            'matching of implementation rules to model rules by content (harness)',
            'pandas sort_values / iterrows semantics are not modelled; the implementation partition is observed and every separation it makes is checked against the proven-safe criterion']
